@@ -121,8 +121,68 @@ struct ParserCheck
                            .str());
     }
 
+    // A second parse on the same parser object after an earlier one: the outcome of the second must still
+    // agree with the reference for (D, av2, env2) alone.  `first` is parsed and its outcome ignored.
+    void run_second(const Decl& D, const std::vector<std::string>& av1, const Env& env1,
+                    const std::vector<std::string>& av2, const Env& env2, mc::Report& rep, long idx) const
+    {
+        auto r = refparse(D, av2, env2);
+        nitro::options::parser p;
+        build(p, D);
+        apply_env(D, env1);
+        run_on(p, D, av1);
+        apply_env(D, env2);
+        std::vector<Diff> extra;
+        OnAccept cb;
+        if (on_accept)
+            cb = [&](const nitro::options::arguments& args, const Res&) { on_accept(D, r, args, extra); };
+        auto i = run_on(p, D, av2, cb);
+        rep.count("executions", 2);
+        rep.count("second_parses");
+        auto all = compare(r, i);
+        all.insert(all.end(), extra.begin(), extra.end());
+        for (auto& d : all)
+        {
+            if (!judged(d.clause))
+                continue;
+            std::string w = mc::J()
+                                .s("decl", D.str())
+                                .raw("declaration", decl_json(D))
+                                .l("first_argv", av1)
+                                .raw("first_env", env_json(env1))
+                                .l("argv", av2)
+                                .raw("env", env_json(env2))
+                                .str();
+            rep.violation("second-parse:" + d.clause,
+                          id + ":second-parse:" + d.clause + ":" + class_seq(D, av1) + " ; " + class_seq(D, av2), w,
+                          "after parse(" + mc::jlist(av1) + ") on the same parser, parse(" + mc::jlist(av2) + "): " + d.detail,
+                          idx);
+        }
+    }
+
     int replay(const std::string& path) const
     {
+        {
+            auto doc = js::load(path);
+            const js::Value& w = doc.has("witness") ? doc.at("witness") : doc;
+            if (w.has("first_argv"))
+            {
+                Decl D = decl_from(w.at("declaration"));
+                Env e1, e2 = env_from(w);
+                if (auto v = w.find("first_env"))
+                    for (auto& kv : v->obj)
+                        e1[kv.first] = kv.second.str;
+                mc::Report rep;
+                run_second(D, w.strings("first_argv"), e1, w.strings("argv"), e2, rep, 0);
+                printf("replay %s (second parse on one parser): first %s then %s\n", id.c_str(),
+                       mc::jlist(w.strings("first_argv")).c_str(), mc::jlist(w.strings("argv")).c_str());
+                for (auto& v : rep.violations)
+                    printf("  FAILED clause: %s\n    %s\n", v.second.clause.c_str(), v.second.detail.c_str());
+                if (rep.violations.empty())
+                    printf("  the second parse agrees with the reference\n");
+                return rep.violations.empty() ? 0 : 1;
+            }
+        }
         return replay_case(path, id.c_str(),
                            [&](const Decl& D, const std::vector<std::string>& av, const Env& e) {
                                return failing(D, av, e);
